@@ -71,6 +71,33 @@ def run(tier, seed):
     samples = sorted(glob.glob(os.path.join(C.REPO, "samples", "**", "*.asm"), recursive=True))
     if tier == "quick":
         samples = rnd.sample(samples, min(25, len(samples)))
+    # per-CPU instruction programs (tests/comparison): each is also assembled behind the programs of other CPUs in one
+    # process - the variants that share a back end (riscv/riscv64, mips/mips32/pic32/ps2_ee, msp430/msp430x, ...) first
+    from .. import codec as K
+    import re as _re
+    cpuprog = {}
+    for cpu, text in K.corpus({c["name"] for c in K.cpu_list(vdir)}):
+        if ":" in text:
+            continue
+        cpuprog.setdefault(cpu, [])
+        if len(cpuprog[cpu]) < 14:
+            cpuprog[cpu].append(text)
+    for cpu in ("riscv", "riscv64", "mips", "mips32"):
+        if cpu in cpuprog:
+            cpuprog[cpu] += ["li " + ("t0" if cpu.startswith("riscv") else "$t0") + ", 0x12345", "li " + ("t1" if cpu.startswith("riscv") else "$t1") + ", -5000"]
+    cpusrc = {cpu: ".%s\n.org 0x1000\n" % cpu + "".join("  %s\n" % t for t in ts) for cpu, ts in cpuprog.items()}
+    vhist = {}
+    names = sorted(cpusrc)
+    for cpu in names:
+        def closeness(o):
+            n = 0
+            while n < min(len(o), len(cpu)) and o[n] == cpu[n]:
+                n += 1
+            return -n
+        others = sorted([o for o in names if o != cpu], key=lambda o: (closeness(o), o))
+        pick_o = others[:4] + (rnd.sample(others[4:], 2) if tier == "quick" else others[4:])
+        sources.append(("cpu_" + cpu, cpusrc[cpu]))
+        vhist["cpu_" + cpu] = pick_o
 
     # (a) in-process histories
     cases = []
@@ -80,7 +107,10 @@ def run(tier, seed):
         cases.append((gid + ".AA", "imgmax=20000", src + SEP + src))
         cases.append((gid + ".BA", "imgmax=20000", OTHER + SEP + src))
         cases.append((gid + ".CA", "imgmax=20000", FAIL + SEP + src))
-    obs = C.conform_parallel(vdir, "asm", cases, rd, "c13", 20)
+        for o in vhist.get(gid, []):
+            cases.append(("%s.V_%s" % (gid, o), "imgmax=20000", cpusrc[o] + SEP + src))
+    # every history in a process of its own: a reference run must not inherit what another case left in static storage
+    obs = C.conform_parallel(vdir, "asm", cases, rd, "c13", 20, nproc=C.NCPU, fresh=True)
     byid = {o["case"]: o for o in obs}
 
     def runs_of(o):
@@ -95,7 +125,7 @@ def run(tier, seed):
             continue
         refs[gid] = (src, r)
         runs = []
-        for how in ("left", "AA", "BA", "CA"):
+        for how in ["left", "AA", "BA", "CA"] + ["V_" + o for o in vhist.get(gid, [])]:
             o = byid.get("%s.%s" % (gid, how))
             if o is None or o.get("died"):
                 runs.append({"how": how, "ok": False, "img": [], "left": []})
